@@ -83,6 +83,8 @@ def impl_build(variant="asan"):
     """Build /repo's working tree (hooks on, sanitizers) and return the build dir."""
     flags = {"asan": SAN, "tsan": "-fsanitize=thread -fno-omit-frame-pointer", "plain": ""}[variant]
     th = tree_hash() + "-" + hashlib.sha256(flags.encode()).hexdigest()[:6]
+    if os.environ.get("VERIF_BUILD_INPLACE"):
+        return _impl_build_inplace(variant, flags, th)
     with Lock("impl-" + variant):
         d = os.path.join(CACHE, "impl-%s-%s" % (variant, th))
         if os.path.exists(os.path.join(d, ".done")):
@@ -110,6 +112,44 @@ def impl_build(variant="asan"):
             raise BuildError("build of /repo failed", out[-6000:])
         open(os.path.join(d, ".done"), "w").write(th)
         log("built /repo (%s) in %.1fs -> %s" % (variant, time.time() - t0, d))
+        return d
+
+
+def _impl_build_inplace(variant, flags, th):
+    """Seed sweeps only (scripts/seed_sweep_par.sh sets VERIF_BUILD_INPLACE with a PRIVATE cache and a private copy of the
+    tree): one build directory per variant, rebuilt incrementally by ninja when the tree changed; everything compiled
+    against the previous tree (harness binaries, the verification module) is dropped. The registered checks never use
+    this: they build every tree from scratch into a directory keyed by the tree hash."""
+    with Lock("impl-" + variant):
+        d = os.path.join(CACHE, "impl-%s-inplace" % variant)
+        done = os.path.join(d, ".done")
+        if os.path.exists(done) and open(done).read() == th:
+            return d
+        os.makedirs(d, exist_ok=True)
+        if os.path.exists(done):
+            os.unlink(done)
+        import re
+        for e in os.listdir(d):
+            q = os.path.join(d, e)
+            if os.path.isfile(q) and re.search(r"-[0-9a-f]{16}(\.tmp)?$", e):
+                os.unlink(q)
+            elif os.path.isdir(q) and e.startswith("vmod"):
+                shutil.rmtree(q, ignore_errors=True)
+        t0 = time.time()
+        lf = os.path.join(d, "build.log")
+        cxx = "-D%s %s -Wno-error" % (GUARD, flags)
+        if not os.path.exists(os.path.join(d, "build.ninja")):
+            rc, out = _sh(["cmake", "-G", "Ninja", "-S", REPO, "-B", d, "-DCMAKE_BUILD_TYPE=RelWithDebInfo",
+                           "-DBUILD_TESTING=OFF", "-DCMAKE_CXX_FLAGS=" + cxx, "-DCMAKE_C_FLAGS=" + cxx,
+                           "-DCMAKE_EXE_LINKER_FLAGS=" + flags, "-DCMAKE_SHARED_LINKER_FLAGS=" + flags,
+                           "-DCMAKE_MODULE_LINKER_FLAGS=" + flags], logfile=lf)
+            if rc != 0:
+                raise BuildError("cmake configure failed", out[-4000:])
+        rc, out = _sh(["ninja", "-C", d, "-j", NJOBS], logfile=lf)
+        if rc != 0:
+            raise BuildError("build of /repo failed", out[-6000:])
+        open(done, "w").write(th)
+        log("rebuilt %s in place (%s) in %.1fs -> %s" % (REPO, variant, time.time() - t0, d))
         return d
 
 
